@@ -339,6 +339,73 @@ func relaxPrereleaseDeps(s universe.Scenario) []string {
 	return out
 }
 
+// Class relax_resolved_below_highest_match: for an npm direct requirement the version the
+// resolver selects (deps.dev orders the matches with the dist-tag "latest" last) is not the
+// greatest matching version. NpmRelaxer.Relax measures the level from the greatest match.
+const clsRelaxBelowHighest = "relax_resolved_below_highest_match"
+
+// relaxBelowHighestDeps returns the packages of the direct requirements in the class.
+func relaxBelowHighestDeps(s universe.Scenario) []string {
+	if s.Universe.System != universe.NPM {
+		return nil
+	}
+	cl, err := s.Universe.Client()
+	if err != nil {
+		return nil
+	}
+	var out []string
+	for _, d := range s.Manifest.Deps {
+		vs, err := cl.MatchingVersions(context.Background(), resolve.VersionKey{
+			PackageKey:  resolve.PackageKey{System: resolve.NPM, Name: d.Name},
+			Version:     d.Req,
+			VersionType: resolve.Requirement,
+		})
+		if err != nil || len(vs) < 2 {
+			continue
+		}
+		pick, ok := universe.ParseVer(vs[len(vs)-1].Version)
+		if !ok {
+			continue
+		}
+		for _, v := range vs {
+			if pv, ok := universe.ParseVer(v.Version); ok && pv.Compare(pick) > 0 {
+				out = append(out, d.Name)
+				break
+			}
+		}
+	}
+	return out
+}
+
+// honourRelaxBelowHighest suppresses the class by removing the dist-tag of the package.
+func honourRelaxBelowHighest(col *ev.Collector, prefix string, s *universe.Scenario) {
+	if col == nil || s.Universe.System != universe.NPM {
+		return
+	}
+	cls := prefix + "." + clsRelaxBelowHighest
+	if !col.IsKnown(cls) {
+		return
+	}
+	names := relaxBelowHighestDeps(*s)
+	if len(names) == 0 {
+		return
+	}
+	col.Excluded(cls)
+	in := false
+	for i, l := range s.Universe.Schema {
+		if !strings.HasPrefix(l, " ") {
+			in = false
+			for _, n := range names {
+				in = in || l == n
+			}
+			continue
+		}
+		if in && strings.HasPrefix(l, "  Tags latest|") {
+			s.Universe.Schema[i] = "  " + strings.TrimPrefix(l, "  Tags latest|")
+		}
+	}
+}
+
 // honourRelaxPrerelease suppresses the class by raising the level of the package to minor.
 func honourRelaxPrerelease(col *ev.Collector, prefix string, s *universe.Scenario) {
 	if col == nil || s.Universe.System != universe.NPM {
